@@ -52,7 +52,10 @@
    FAILS P_C14_Returns (non-vacuity; D9, D10). FALSE = the repaired behaviour = the
    property.  UnbufferedSelRecvReply = TRUE is a seeded fault (the reply channel of
    PublishPartial made unbuffered): the loop can then block for ever on the reply of a
-   caller that left through ctx.Done and P_C14_Exit FAILS (non-vacuity of Exit).        *)
+   caller that left through ctx.Done and P_C14_Exit FAILS (non-vacuity of Exit).
+   BareSendMsg = TRUE is another seeded fault (sendMsgBlocking without its ctx.Done arm):
+   more validations than sendMsg has room for finishing after the loop's exit block for
+   ever - Publish callers (P_C14_Returns) and the validation worker (P_C14_Exit).          *)
 EXTENDS Naturals, Sequences, FiniteSets, TLC, LifecyclePatterns
 
 CONSTANTS NConc,                  \* call slots that may start at any time
@@ -60,6 +63,7 @@ CONSTANTS NConc,                  \* call slots that may start at any time
           BareSendPublishBatch,   \* TRUE = as found (D9)
           BareSendDiscover,       \* TRUE = as found (D10)
           UnbufferedSelRecvReply, \* FALSE in the code
+          BareSendMsg,            \* FALSE in the code; TRUE = sendMsgBlocking without its ctx.Done arm (seeded fault)
           BatchCap, DiscCap, SendCap,
           MaxTicks, MaxRemote
 
@@ -168,7 +172,7 @@ ValDone(i) ==
 SendMsg(i) ==
     /\ pc[i] = "sendmsg"
     /\ \/ /\ sendQ < SendCap /\ sendQ' = sendQ + 1 /\ Ret(i, "served")
-       \/ /\ cancelled /\ UNCHANGED sendQ /\ Ret(i, "ctx")
+       \/ /\ ~BareSendMsg /\ cancelled /\ UNCHANGED sendQ /\ Ret(i, "ctx")
     /\ UNCHANGED <<pat, reply, loop, batchQ, discQ, valQ, incQ>> /\ UNCH_ENV /\ UNCH_PROCS /\ UNCH_PEER
 
 \* ---------------------------------------------------------------- the event loop
@@ -257,7 +261,7 @@ WorkerStep ==
        \/ /\ worker = "idle" /\ cancelled /\ worker' = "done" /\ UNCHANGED <<valQ, sendQ>>
        \/ /\ worker = "val" /\ worker' = "sendmsg" /\ UNCHANGED <<valQ, sendQ>>
        \/ /\ worker = "sendmsg" /\ sendQ < SendCap /\ sendQ' = sendQ + 1 /\ worker' = "idle" /\ UNCHANGED valQ
-       \/ /\ worker = "sendmsg" /\ cancelled /\ worker' = "idle" /\ UNCHANGED <<valQ, sendQ>>
+       \/ /\ worker = "sendmsg" /\ ~BareSendMsg /\ cancelled /\ worker' = "idle" /\ UNCHANGED <<valQ, sendQ>>
     /\ UNCHANGED <<batchQ, discQ, incQ, disc, timer, ticks, writer, reader, remote, sweeper, loop>>
     /\ UNCH_CALLS /\ UNCH_ENV /\ UNCH_PEER
 
